@@ -137,6 +137,8 @@ ghost var gOpened bool
 
 func mailbox.(*DirHandler).SetSent(h, MID, rejected) ()
   props C12 C11 C10
+  # a failed move is logged: it never ends the process
+  call log.Fatalf requires never-ends-the-process: false
   # SetUnread writes to the path named by the message's X-FilePath header, which cannot be
   # shown to lie inside this mailbox: not allowed on the paths C12 speaks about
   forbid [C12] mailbox.SetUnread
